@@ -4,7 +4,7 @@
    glue is tied to the real parallel_for by props/C12.py.
 
    Vocabulary: pfcfg = (index kind, start, end, chunk spec, pool threads N, ParForOptions);  pf_dom = documented domain
-   (pf_dom_wide) minus the explicit-chunk-overflow finding;  an execution (exec) = machine L3 group count + the claim
+   (= pf_dom_wide);  an execution (exec) = machine L3 group count + the claim
    events of the dynamic path + the (worker, victim) events of the stripe path;  pf_complete = every worker has left
    its loop;  pf_calls = the (begin, end) pairs handed to the body;  is_partition s e l = l is empty for an empty range,
    otherwise some ordering of l is a contiguous chain from s to e. *)
@@ -38,10 +38,9 @@ Proof. exact C12_dynamic_partition_proof. Qed.
 Print Assumptions C12_dynamic_partition.
 
 (* adaptive (stripe) path: for EVERY schedule of claims and steals (victim choice = oracle), under the explicit
-   hypothesis that no cursor fetch_add of the run left the 64-bit cursor type, and outside the chunk-size-narrowing
-   finding; the no-wrap hypothesis follows from a bound F on the failed claims per stripe when the configuration is
+   hypothesis that no cursor fetch_add of the run left the 64-bit cursor type; the no-wrap hypothesis follows from a bound F on the failed claims per stripe when the configuration is
    outside the wrap domain for F *)
-Theorem C12_adaptive_partition : forall c sched, pf_dom c -> pf_mode c = MAdaptive -> c12_narrow_domain c = false ->
+Theorem C12_adaptive_partition : forall c sched, pf_dom c -> pf_mode c = MAdaptive ->
   exists sc, pf_scfg c = Some sc /\
     (stripe_complete sc sched = true -> stripe_nowrap sc sched = true ->
      is_partition (pf_s c) (pf_e c) (stripe_calls sc sched)) /\
@@ -50,7 +49,7 @@ Theorem C12_adaptive_partition : forall c sched, pf_dom c -> pf_mode c = MAdapti
 Proof. exact C12_adaptive_partition_proof. Qed.
 Print Assumptions C12_adaptive_partition.
 
-(* the property at full strength -- FALSE for the code that exists (three findings) *)
+(* the property at full strength -- FALSE for the code that exists (one finding remains: adaptive-cursor-wrap-64bit) *)
 Definition C12_full_statement : Prop :=
   forall c x, pf_dom_wide c -> pf_complete c x = true ->
   exists l, pf_calls c x = Some l /\ is_partition (pf_s c) (pf_e c) l.
@@ -59,26 +58,39 @@ Definition C12_full_statement : Prop :=
    deterministic prefix "every worker drains its own stripe" the body has been called with [5,12); no continuation of
    the execution can be a partition.  (Reproduced on the real code: props/C12.py WITNESS_WRAP.) *)
 Theorem C12_refuted :
-  pf_dom c12_witness /\ pf_mode c12_witness = MAdaptive /\ c12_narrow_domain c12_witness = false /\
+  pf_dom c12_witness /\ pf_mode c12_witness = MAdaptive /\
   forall more l, pf_calls c12_witness (EX 0 [] (c12_witness_prefix ++ more)) = Some l ->
     In (5, 12) l /\ ~ is_partition (pf_s c12_witness) (pf_e c12_witness) l.
 Proof. exact C12_refuted_proof. Qed.
 Print Assumptions C12_refuted.
 
-(* finding explicit-chunk-overflow-64bit: a complete execution whose invocation list is empty for a non-empty range;
-   this one refutes C12_full_statement literally *)
-Theorem C12_refuted_chunk_overflow :
-  pf_dom_wide c12_chunkovf_witness /\ c12_chunkovf_domain c12_chunkovf_witness = true /\
-  let x := EX 0 [0; 1; 2; 3; 4]%nat [] in
-  pf_complete c12_chunkovf_witness x = true /\ pf_calls c12_chunkovf_witness x = Some [] /\
-  ~ is_partition (pf_s c12_chunkovf_witness) (pf_e c12_chunkovf_witness) [].
-Proof. exact C12_refuted_chunk_overflow_proof. Qed.
-Print Assumptions C12_refuted_chunk_overflow.
+(* regression: the witness of the former finding explicit-chunk-overflow-64bit (uint64 [0,100), explicit chunk 2^64-50,
+   4-thread pool: numChunks wrapped to 0 and the body was never called) is now in the domain and handled: one chunk *)
+Example C12_regression_chunk_overflow_witness :
+  pf_dom c12_chunkovf_witness /\ pf_mode c12_chunkovf_witness = MDynamic /\
+  let x := EX 0 (round_robin 5 2) [] in
+  pf_complete c12_chunkovf_witness x = true /\ pf_calls c12_chunkovf_witness x = Some [(0, 100)].
+Proof.
+  split.
+  { unfold pf_dom, pf_dom_wide. cbn [c12_chunkovf_witness pf_kn pf_s pf_e pf_chunk pf_N pf_maxThreads pf_minItems pf_gran].
+    split; [lia|]. unfold kind_of, in_kind; cbn [nth all_kinds U64 kmin kmax ik_signed ik_w].
+    repeat split; try lia; try (intros; discriminate). }
+  vm_compute. repeat split; reflexivity.
+Qed.
+
+(* regression: the witness of the former finding adaptive-chunksize-narrowing (int8 [-128,127), adaptive, 1-thread pool,
+   minItemsPerChunk 85: the size_type chunk size 128 was narrowed to int8 -128 and the cursor ran backwards) *)
+Example C12_regression_narrowing_witness :
+  let c := PF 0 (-128) 127 0 1 2147483647 85 1 true in
+  let x := EX 0 [] (own_then_poll 2 6) in
+  pf_mode c = MAdaptive /\ pf_complete c x = true /\ c12_nowrap c x = true /\
+  pf_calls c x = Some [(-128, -1); (-1, 127)].
+Proof. vm_compute. repeat split; reflexivity. Qed.
 
 (* the property on the complement of the findings' domains, all modes, all executions:
-   pf_dom excludes c12_chunkovf_domain; c12_narrow_domain and the wrap are excluded explicitly (trace-level) ... *)
+   the cursor wrap is excluded explicitly (trace-level) ... *)
 Theorem C12_holds_except : forall c x, pf_dom c -> pf_complete c x = true ->
-  c12_narrow_domain c = false -> c12_nowrap c x = true ->
+  c12_nowrap c x = true ->
   exists l, pf_calls c x = Some l /\ is_partition (pf_s c) (pf_e c) l.
 Proof. exact C12_holds_except_proof. Qed.
 Print Assumptions C12_holds_except.
@@ -86,18 +98,18 @@ Print Assumptions C12_holds_except.
 (* ... or by the configuration-level domain predicate used by the check to classify violations, given a bound F on
    the failed claims per stripe (c12_fail_bound) *)
 Theorem C12_holds_except_domain : forall c x F, pf_dom c -> pf_complete c x = true -> 0 <= F ->
-  c12_narrow_domain c = false -> c12_wrap_domain F c = false -> c12_fail_bound F c x ->
+  c12_wrap_domain F c = false -> c12_fail_bound F c x ->
   exists l, pf_calls c x = Some l /\ is_partition (pf_s c) (pf_e c) l.
 Proof. exact C12_holds_except_budget_proof. Qed.
 Print Assumptions C12_holds_except_domain.
 
-(* the hypotheses are satisfiable by non-trivial inputs: an adaptive run (int32 [3,1003), g = 8, 5 workers, 126
+(* the hypotheses are satisfiable by non-trivial inputs: an adaptive run (int32 [3,1003), g = 8, 5 workers, 125
    invocations) and a dynamic no-wait run with a tail, both complete, no wrap, outside every finding domain *)
 Example C12_nonvacuous :
   let c := PF 4 3 1003 0 4 2147483647 1 8 true in
   let x := EX 0 [] (own_then_poll 5 40) in
-  pf_mode c = MAdaptive /\ pf_complete c x = true /\ c12_nowrap c x = true /\ c12_narrow_domain c = false /\
-  c12_wrap_domain c12_fail_budget c = false /\ option_map (@length _) (pf_calls c x) = Some 126%nat /\
+  pf_mode c = MAdaptive /\ pf_complete c x = true /\ c12_nowrap c x = true /\
+  c12_wrap_domain c12_fail_budget c = false /\ option_map (@length _) (pf_calls c x) = Some 125%nat /\
   let c' := PF 4 3 1003 0 4 2147483647 1 8 false in
   let x' := EX 0 (round_robin 4 20) [] in
   pf_mode c' = MDynamic /\ pf_complete c' x' = true /\ option_map (@length _) (pf_calls c' x') = Some 63%nat.
